@@ -122,7 +122,9 @@ enum EvKind {
     Present(usize, usize),
 }
 
-pub fn scenario(r: &mut Report, seed: u64, g: u64, holders: usize, case_id: u64) {
+/// `idle`: after the first keep-alive (t = 0) the node receives nothing at all for this long; the whole
+/// timeline (keep-alives, fetches, presentations) follows the idle period.
+pub fn scenario(r: &mut Report, seed: u64, g: u64, holders: usize, case_id: u64, idle: u64) {
     r.eval();
     let mut rng = Rng::new(seed);
     let fx = Fixture::new(seed, None);
@@ -143,6 +145,13 @@ pub fn scenario(r: &mut Report, seed: u64, g: u64, holders: usize, case_id: u64)
         evs.push((h.fetch_at, EvKind::Fetch(i)));
         for (j, p) in h.presents.iter().enumerate() {
             evs.push((h.fetch_at + p.age, EvKind::Present(i, j)));
+        }
+    }
+    if idle > 0 {
+        for e in evs.iter_mut() {
+            if e.0 > 0 {
+                e.0 += idle;
+            }
         }
     }
     evs.sort_by_key(|e| e.0);
@@ -227,7 +236,8 @@ pub fn scenario(r: &mut Report, seed: u64, g: u64, holders: usize, case_id: u64)
                 let mut c = if addr == clients[i].addr { None } else { Some(fx.client(addr, id)) };
                 let arrival = fx.w.now() + MS;
                 arrivals.push(arrival);
-                let tag = (case_id, i, j);
+                // half of the payloads repeat the holder's earlier payload byte for byte (a republish)
+                let tag = (case_id, i, if rng.bool() { 0 } else { j + 1 });
                 let reply = {
                     let cl = c.as_mut().unwrap_or(&mut clients[i]);
                     let cid = cl.id;
@@ -256,7 +266,7 @@ pub fn scenario(r: &mut Report, seed: u64, g: u64, holders: usize, case_id: u64)
                 if let Some(c) = c {
                     fx.w.close_raw(c.sock);
                 }
-                let case = json!({"class":"timeline","seed":seed.to_string(),"gap_ns":g,"holders":holders,"holder":i,"present":j,"issued_to":hs[i].ip.to_string(),"presented_by":addr.to_string(),"age_ns":arrival - issue,"mutation":format!("{:?}", p.mutation),"put_kind":p.kind});
+                let case = json!({"class":"timeline","seed":seed.to_string(),"gap_ns":g,"idle_ns":idle,"holders":holders,"holder":i,"present":j,"issued_to":hs[i].ip.to_string(),"presented_by":addr.to_string(),"age_ns":arrival - issue,"mutation":format!("{:?}", p.mutation),"put_kind":p.kind});
                 results.push(Pending { case, accepted: reply.is_ack(), code: reply.code(), age: arrival - issue, same_ip, mutated, arrival, issue });
                 if matches!(reply, Reply::None) {
                     r.violation("present/no-reply", "a write got no reply", results.last().expect("r").case.clone(), json!({}));
@@ -323,7 +333,7 @@ pub fn run(a: &Args) -> Report {
     if let Some(path) = &a.replay {
         let v: Value = serde_json::from_str(&std::fs::read_to_string(path).unwrap_or_default()).unwrap_or_default();
         let c = &v["case"];
-        scenario(&mut r, c["seed"].as_str().and_then(|s| s.parse().ok()).unwrap_or(1), c["gap_ns"].as_u64().unwrap_or(SEC), c["holders"].as_u64().unwrap_or(30) as usize, 0);
+        scenario(&mut r, c["seed"].as_str().and_then(|s| s.parse().ok()).unwrap_or(1), c["gap_ns"].as_u64().unwrap_or(SEC), c["holders"].as_u64().unwrap_or(30) as usize, 0, c["idle_ns"].as_u64().unwrap_or(0));
         return r;
     }
     let n = (if a.quick() { 480 } else { 16000 }) / a.nshards.max(1);
@@ -332,8 +342,12 @@ pub fn run(a: &Args) -> Report {
         let g = *rng.pick(&[SEC, 30 * SEC, 4 * MIN, 4 * MIN, 10 * SEC]);
         let holders = 30 + rng.usize(40);
         let s = rng.u64();
-        super::guarded(&mut r, json!({"class":"timeline","seed":s.to_string(),"gap_ns":g,"holders":holders}), |r| scenario(r, s, g, holders, mix(a.shard, i)));
+        let idle = if i % 3 == 2 { *rng.pick(&[6 * MIN, 10 * MIN, 11 * MIN, 16 * MIN, 20 * MIN, 31 * MIN, 61 * MIN]) } else { 0 };
+        super::guarded(&mut r, json!({"class":"timeline","seed":s.to_string(),"gap_ns":g,"idle_ns":idle,"holders":holders}), |r| scenario(r, s, g, holders, mix(a.shard, i), idle));
         r.count("timelines");
+        if idle > 0 {
+            r.count("timelines_after_idle_period");
+        }
     }
     r
 }
